@@ -384,6 +384,13 @@ func (f *fgen) create() txgen.Tx {
 		initial = new(big.Int).Add(goal, big.NewInt(int64(1+f.u.N(3, "cr-init-over"))))
 	}
 	tags := []string{"focused"}
+	if f.u.N(12, "cr-idsep") == 0 && !(len(f.priority) > 0 && f.priority[len(f.priority)-1] == string(id)) {
+		// ids are 64 characters chosen by the sender: the stores' own key separator is a legal character
+		b := []byte(id)
+		b[7], b[23] = '_', '_'
+		id = governance.ProposalID(b)
+		tags = append(tags, "id-with-separator")
+	}
 	if scenario := len(f.priority) > 0 && f.priority[len(f.priority)-1] == string(id); !scenario && len(f.m.Order) > 0 && f.u.N(8, "cr-reuse") < 1+2*len(f.byStage(SZF)) {
 		// the sender chooses the id: ask for one that exists already, in whatever stage it is (terminal
 		// ones preferred: each terminal stage has a store of its own)
